@@ -905,9 +905,11 @@ func (pw *pathWalker) run(s *pwState) []*pwState {
 								s.p.mem[fk], s.p.stores[fk] = z, z
 								continue
 							}
-							if src == "" || s.p.unknown[src] {
+							if src == "" {
 								continue
 							}
+							// (a field entry of the source postdates its last whole-object store: it is valid
+							// even when the rest of the source object is not known)
 							if sv, ok := s.p.stores[fmt.Sprintf("%s.%d", src, i)]; ok {
 								s.p.mem[fk], s.p.stores[fk] = sv, sv
 							}
